@@ -527,7 +527,9 @@ pub fn grammar(zlib: Option<(u8, u8)>, thorough: bool) -> Vec<GenStream> {
             Coding::Dyn(CodeShape::Flat, CodeShape::ChainDeep(15)),
         ]
     } else {
-        vec![Coding::Fixed, Coding::Dyn(CodeShape::Full, CodeShape::Full)]
+        // (long distance codes in the sweeps too: a 15-bit distance code + 13 extra bits after a
+        // length with 5 extra bits is the longest bit run a single match can need)
+        vec![Coding::Fixed, Coding::Dyn(CodeShape::Full, CodeShape::Full), Coding::Dyn(CodeShape::Flat, CodeShape::ChainDeep(15))]
     };
     v.extend(length_distance_sweeps(zlib, thorough, &codings, crate::util::seed()));
     v.extend(chain_code_sweeps(zlib));
